@@ -28,7 +28,7 @@ theorem identityLoop_key (P : Prims) (ss : List Stanza) :
 theorem decryptInit_ok (P : Prims) (ids : List Identity) (file k payload : Bytes) (c : Nat)
     (h : decryptInit P ids file = (.ok (k, payload), c)) :
     ∃ hdr rest fk, parse file = .ok (hdr, rest) ∧ (∃ i ∈ ids, i.unwrap P hdr.stanzas = .key fk) ∧
-      fk ≠ [] ∧ headerMAC P fk hdr.stanzas = hdr.mac ∧ 16 ≤ rest.length ∧
+      (fk ≠ [] ∨ endsNonNil P hdr.stanzas ids = true) ∧ headerMAC P fk hdr.stanzas = hdr.mac ∧ 16 ≤ rest.length ∧
       k = streamKey P fk (rest.take 16) ∧ payload = rest.drop 16 := by
   unfold decryptInit at h
   split at h
@@ -53,7 +53,9 @@ theorem decryptInit_ok (P : Prims) (ids : List Identity) (file k payload : Bytes
               obtain ⟨⟨hk, hpl⟩, _⟩ := h
               refine ⟨hdr, rest, fk, hp, identityLoop_key P hdr.stanzas ids 0 0 fk c0 hl, ?_, by simpa using hmac,
                 by simp only [streamNonceSize] at hlen; omega, hk.symm, hpl.symm⟩
-              intro e; subst e; simp at hfe
+              cases hnn : endsNonNil P hdr.stanzas ids with
+              | true => exact Or.inr rfl
+              | false => left; intro e; subst e; simp [hnn] at hfe
 
 /-- an error result carries no reader: by the type of `decryptInit` (an `Except`) -/
 theorem decryptInit_error_no_reader (P : Prims) (ids : List Identity) (file : Bytes) (e : DecErr) (c : Nat)
